@@ -267,6 +267,24 @@ func (ro *RedisOutput) DropStartPoint(ctx context.Context, newRunId string) erro
 	if ro.cfg.RunId == "" || ro.cfg.RunId == newRunId {
 		return nil
 	}
+	if ro.cfg.EnableResumeFromBreakPoint {
+		// a standalone target keeps one record per database (the stream writes the checkpoint into the database of
+		// the replayed commands) and the highest offset of all of them is "the" checkpoint : the marker below is
+		// written through a fresh connection, i.e. into one database only, and a record of the old history left
+		// in another database would still win when SetRunId carries the position over to the new run id
+		err := util.RetryLinearJitter(ctx, func() error {
+			cli, err := ro.NewRedisConn(ctx)
+			if err != nil {
+				return err
+			}
+			defer cli.Close()
+			return checkpoint.DelCheckpoint(cli, ro.cfg.CheckpointName, ro.cfg.RunId)
+		}, 5, time.Second*2, 0.3)
+		if err != nil {
+			ro.logger.Errorf("drop start point, delete checkpoint : cp(%s), runId(%s), err(%v)", ro.cfg.CheckpointName, ro.cfg.RunId, err)
+			return err
+		}
+	}
 	return ro.setCheckpoint(ctx, ro.cfg.RunId, -1, config.Version)
 }
 
